@@ -202,11 +202,15 @@ def run_case(case, tier="quick", src_root=None, findings=()):
     return rec
 
 
+BATCH = 60
+
+
 def make_jobs(case, cx, syms_by_path, tier, findings, rec):
     timeout = case.timeout or (10.0 if tier == "quick" else 60.0)
     jobs = []
     seen_probe, seen_vc = set(), set()
     rec["duplicate_vcs"] = 0
+    groups = {}          # hyps key -> list of (name, ob, goal, skolems)  (quantifier-free contexts)
     for ob in cx.obligations:
         if ob.expect == "sat":
             if ob.name in seen_probe:
@@ -229,20 +233,23 @@ def make_jobs(case, cx, syms_by_path, tier, findings, rec):
             if isinstance(t, z3.ExprRef) and not (z3.is_const(t) and str(t) == k):
                 alias.append(z3.Const("g!" + k, t.sort()) == t)
         parts = vc.split_goal(ob.goal, "q")
+        kfs = [kf for kf in findings if kf.get("status", "open") == "open"
+               and ob.name in kf.get("obligations", [kf.get("obligation")])]
+        quantified = any(vc.has_q(h) for h in ob.hyps)
         for sfx, g, sk in parts:
             name = ob.name + sfx
             hyps = list(ob.hyps) + alias
             neg = z3.Not(g)
+            if not quantified and not kfs and not vc.has_q(g):
+                hk = (ob.path, tuple(h.get_id() for h in hyps))
+                groups.setdefault(hk, (hyps, []))[1].append((name, ob, g))
+                continue
             gv = vc.ground_version(hyps, g, sk)
             job = {"case": case.name, "name": name, "kind": ob.kind, "path": ob.path, "expect": "unsat",
                    "info": ob.info, "timeout": timeout,
                    "ground": vc.to_smt2(gv, neg) if gv is not None else None,
-                   "full": vc.to_smt2(hyps, neg), "goal": str(g)[:400], "kf": []}
-            for kf in findings:
-                if kf.get("status", "open") != "open":
-                    continue
-                if ob.name not in kf.get("obligations", [kf.get("obligation")]):
-                    continue
+                   "full": vc.to_smt2(hyps, neg), "goal": g.sexpr()[:400], "kf": []}
+            for kf in kfs:
                 ns = {k: (v.term if isinstance(v, CV) else v) for k, v in syms.items()}
                 ns.update({"And": z3.And, "Or": z3.Or, "Not": z3.Not, "Implies": z3.Implies,
                            "Length": z3.Length, "If": z3.If})
@@ -252,6 +259,19 @@ def make_jobs(case, cx, syms_by_path, tier, findings, rec):
                 except Exception as e:
                     job["kf"].append({"id": kf["id"], "error": f"witness class not evaluable: {e}"})
             jobs.append(job)
+    # obligations sharing one quantifier-free context: one solver, one goal at a time
+    for (path, _), (hyps, items) in groups.items():
+        for c0 in range(0, len(items), BATCH):
+            chunk = items[c0:c0 + BATCH]
+            s = z3.Solver()
+            for h in hyps:
+                s.add(h)
+            metas = []
+            for i, (name, ob, g) in enumerate(chunk):
+                s.add(z3.Implies(z3.Bool(f"goal!marker!{i}"), z3.Not(g)))
+                metas.append({"name": name, "kind": ob.kind, "path": ob.path, "info": ob.info, "goal": g.sexpr()[:400]})
+            jobs.append({"case": case.name, "batch": True, "expect": "unsat", "timeout": timeout,
+                         "full": s.to_smt2(), "items": metas, "path": path})
     return jobs
 
 
@@ -314,7 +334,53 @@ def _check_text(txt, timeout_s):
     return r, s, a
 
 
+def solve_batch(job):
+    """several goals under one quantifier-free context: parse once, check each
+    goal under its marker (check-sat-assuming)"""
+    outs = []
+    T = job["timeout"]
+    try:
+        s = z3.Solver()
+        s.set("timeout", int(T * 1000))
+        a = z3.parse_smt2_string(job["full"])
+        s.add(a)
+        consts = _consts_of(a)
+    except Exception as e:
+        return [{"case": job["case"], **m, "verdict": "crash", "backend": None, "time": 0.0,
+                 "reason": f"{type(e).__name__}: {e}"} for m in job["items"]]
+    for i, m in enumerate(job["items"]):
+        t0 = time.time()
+        o = {"case": job["case"], **m}
+        marker = z3.Bool(f"goal!marker!{i}")
+        r = s.check(marker)
+        o["backend"] = "z3-%s(api)" % z3.get_version_string()
+        o["reason"] = None
+        if r == z3.unsat:
+            o["verdict"] = "proved"
+        elif r == z3.sat:
+            o["verdict"] = "refuted"
+            o["model"] = {k: v for k, v in _model_dict(s.model(), consts).items() if not k.startswith("goal!marker")}
+        else:
+            # retry alone (fresh solver, cvc5 fallback) through the single-goal path
+            neg = [x for x in a if z3.is_implies(x) and x.arg(0).get_id() == marker.get_id()]
+            hyps = [x for x in a if not (z3.is_implies(x) and str(x.arg(0)).startswith("goal!marker"))]
+            single = {"case": job["case"], "name": m["name"], "kind": m["kind"], "path": m["path"], "info": m["info"],
+                      "expect": "unsat", "timeout": T, "ground": None, "goal": m["goal"], "kf": [],
+                      "full": vc.to_smt2(hyps, neg[0].arg(1)) if neg else job["full"]}
+            o = solve_job(single)
+        o["time"] = round(time.time() - t0, 4)
+        outs.append(o)
+    first = True
+    for o in outs:
+        if o["verdict"] == "proved" and first:
+            o["smt2"] = job["full"][:2500]
+            first = False
+    return outs
+
+
 def solve_job(job):
+    if job.get("batch"):
+        return solve_batch(job)
     t0 = time.time()
     out = {k: job[k] for k in ("case", "name", "kind", "path", "info")}
     out["goal"] = job.get("goal")
@@ -480,11 +546,12 @@ def main(argv=None):
             outs = pool.map(solve_job, all_jobs, chunksize=max(1, min(8, len(all_jobs) // (4 * nproc) or 1)))
     else:
         outs = [solve_job(j) for j in all_jobs]
-    for j, o in zip(all_jobs, outs):
-        if o["verdict"] == "crash":
-            recs[j["_rec"]]["status"] = "crash"
-            recs[j["_rec"]]["error"] = f"solver job {o['name']}: {o['reason']}"
-        recs[j["_rec"]]["obligations"].append(o)
+    for j, res in zip(all_jobs, outs):
+        for o in (res if isinstance(res, list) else [res]):
+            if o["verdict"] == "crash":
+                recs[j["_rec"]]["status"] = "crash"
+                recs[j["_rec"]]["error"] = f"solver job {o['name']}: {o['reason']}"
+            recs[j["_rec"]]["obligations"].append(o)
     for rec in recs:
         rec["solve_wall_s"] = round(time.time() - t1, 3)
     from pyvc import report
